@@ -30,7 +30,31 @@
 #include <thread>
 #include <unordered_map>
 
+#include <fcntl.h>
+#include <unistd.h>
+
 using namespace vf;
+
+// ------------------------------------------------------------------ what was running when a sanitizer / assert killed the process
+// The op sequence of the running case is appended to <out>/fail.txt as it goes (tools/verif.py reads that file after a
+// crash), so a sanitizer abort is reported with the concrete failing input. The file is removed at a clean exit.
+
+static int g_crashFd = -1;
+static Ctx* g_ctx = nullptr;
+static void crashBegin(const char* what) {
+	if (g_crashFd < 0 || g_ctx->failures) return;
+	(void)!ftruncate(g_crashFd, 0); lseek(g_crashFd, 0, SEEK_SET);
+	std::string h = std::string("C19 process killed (sanitizer report / assertion failure, see output_tail) while running ") + what + ": ";
+	(void)!write(g_crashFd, h.data(), h.size());
+}
+static void crashNext(const char* opName) {	// announced before the operation runs: the crash may happen inside it
+	if (g_crashFd < 0 || g_ctx->failures) return;
+	(void)!write(g_crashFd, "<", 1); (void)!write(g_crashFd, opName, strlen(opName)); (void)!write(g_crashFd, "> ", 2);
+}
+static void crashOp(const std::string& op) {
+	if (g_crashFd < 0 || g_ctx->failures) return;
+	(void)!write(g_crashFd, op.data(), op.size()); (void)!write(g_crashFd, "; ", 2);
+}
 
 // ------------------------------------------------------------------ ledger memory manager
 
@@ -73,13 +97,14 @@ private:
 
 // ------------------------------------------------------------------ instrumented item
 
-static const size_t maxSerial = 1 << 20;
+static const size_t maxSerial = size_t(1) << 22;
+static uint64_t g_serial = 1;	// row serial numbers are unique per process run (owner thread only)
 struct Counters {
 	std::atomic<int64_t> live{0};
 	std::atomic<uint64_t> badMagic{0};
 	std::unique_ptr<std::atomic<uint8_t>[]> dtor;	// per serial
-	Counters() : dtor(new std::atomic<uint8_t>[maxSerial]) { reset(); }
-	void reset() { for (size_t i = 0; i < maxSerial; ++i) dtor[i].store(0, std::memory_order_relaxed); live = 0; badMagic = 0; }
+	Counters() : dtor(new std::atomic<uint8_t>[maxSerial]) { for (size_t i = 0; i < maxSerial; ++i) dtor[i].store(0, std::memory_order_relaxed); }
+	void reset() { live = 0; badMagic = 0; }
 };
 static Counters g_cnt;
 
@@ -200,12 +225,13 @@ struct SeqCase {
 	unsigned threads; unsigned nextHandle = 1; uint64_t firstSerial, serial; std::string trace; bool takeNonEmpty = false, reused = false, aba = false, casFailed = false;
 	const char* suite;
 
-	SeqCase(Ctx& c_, Suite& s_, unsigned threads_, uint64_t& serialCounter, const char* suite_)
-		: c(c_), s(s_), threads(threads_), firstSerial(serialCounter), serial(serialCounter), suite(suite_) {
+	SeqCase(Ctx& c_, Suite& s_, unsigned threads_, const char* suite_)
+		: c(c_), s(s_), threads(threads_), firstSerial(g_serial), serial(g_serial), suite(suite_) {
+		crashBegin((std::string(suite_) + "/" + Cfg::name()).c_str());
 		t.reset(new Table(Cfg::make(&led)));
 		s.op(fmt("reset %u", threads)); s.res("ok");
 	}
-	void say(const std::string& op, const std::string& res) { s.op(op); s.res(res); trace += op; trace += "; "; c.stats.evaluations++; }
+	void say(const std::string& op, const std::string& res) { crashOp(op); s.op(op); s.res(res); trace += op; trace += "; "; c.stats.evaluations++; }
 	size_t alloc() { return t->mRawMemPool.GetAllocateCount(); }
 	void state() {
 		auto ch = chainOf(*t);
@@ -222,6 +248,7 @@ struct SeqCase {
 	}
 	// ---- owner operations
 	unsigned opNew() {
+		crashNext("new");
 		size_t before = alloc();
 		Row r = t->NewRow();
 		const void* a = r.GetRaw();
@@ -241,11 +268,13 @@ struct SeqCase {
 		return h;
 	}
 	void opAdd(unsigned h) {
+		crashNext("add");
 		Det d = std::move(det[h]); det.erase(h);
 		t->Add(std::move(*d.row));
 		say(fmt("add %u", h), "ok"); state();
 	}
 	unsigned opExtract(size_t i, bool keep) {
+		crashNext("extract");
 		Row r = t->Extract(i, keep);
 		const void* a = r.GetRaw();
 		uint64_t ser = Cfg::idOf(r);
@@ -258,17 +287,53 @@ struct SeqCase {
 		return h;
 	}
 	void opRemove(size_t i, bool keep) {
+		crashNext("remove");
 		inUse.erase(t->mRaws[i]);
 		t->Remove(i, keep);
 		say(fmt("remove %zu %d", i, keep ? 1 : 0), "ok"); state();
 	}
 	void opMove(unsigned h, unsigned thr) {
+		crashNext("move");
 		Det& d = det[h];
 		std::unique_ptr<Row> moved(new Row(std::move(*d.row)));	// DataRow(DataRow&&)
 		d.row = std::move(moved); d.holder = thr;
 		say(fmt("move %u %u", h, thr), "ok");
 	}
+	// DataRow::operator=(DataRow&&): a fresh row is created and then overwritten by move-assignment from row h; the fresh
+	// row's block is pushed by the temporary's destructor (= new + dispose of the fresh row), h keeps its block
+	void opMoveAssign(unsigned h) {
+		crashNext("massign = new + move-assign (pushes the new row's block)");
+		unsigned h2 = opNew();
+		const void* a = det[h2].addr;
+		*det[h2].row = std::move(*det[h].row);	// DataRow(std::move(row)).Swap(*this); the temporary dies with the old block of h2
+		inUse.erase(a); ++pushGen[a];
+		det[h].row = std::move(det[h2].row);
+		det.erase(h2);
+		if (det[h].row->GetRaw() != det[h].addr) c.fail("C19 %s/%s move-assign: the target row does not hold the source's block; ops: %s", suite, Cfg::name(), trace.c_str());
+		say(fmt("dispose %u", h2), "ok"); state();
+		c.stats.count(std::string(suite) + ".move_assign");
+	}
+	// swap of two detached row objects (DataRow::Swap): the handles exchange their blocks
+	void opSwap(unsigned h1, unsigned h2) {
+		crashNext("swap");
+		Det& a = det[h1]; Det& b = det[h2];
+		a.row->Swap(*b.row);
+		std::swap(a.serial, b.serial); std::swap(a.addr, b.addr);
+		if (a.row->GetRaw() != a.addr || b.row->GetRaw() != b.addr) c.fail("C19 %s/%s swap: row objects do not hold each other's blocks; ops: %s", suite, Cfg::name(), trace.c_str());
+		say(fmt("swap %u %u", h1, h2), "ok"); state();
+		c.stats.count(std::string(suite) + ".swap");
+	}
+	// the table object itself is moved (DataTable(DataTable&&)): detached rows keep pointing at the same list head
+	void opTableMove() {
+		crashNext("tmove");
+		std::unique_ptr<Table> t2(new Table(std::move(*t)));
+		t = std::move(t2);
+		s.comment("tmove"); trace += "tmove; ";
+		state();
+		c.stats.count(std::string(suite) + ".table_moved");
+	}
 	void opTakeAll() {
+		crashNext("takeall");
 		size_t before = alloc();
 		t->pvDeallocateFreeRaws();
 		size_t took = before - alloc();
@@ -277,6 +342,7 @@ struct SeqCase {
 		state();
 	}
 	void opClear() {
+		crashNext("clear");
 		size_t before = alloc(), rows = t->GetCount();
 		for (size_t i = 0; i < rows; ++i) inUse.erase(t->mRaws[i]);
 		t->Clear();
@@ -285,6 +351,7 @@ struct SeqCase {
 	}
 	// ---- ~DataRow, whole
 	void opDispose(unsigned h) {
+		crashNext("dispose");
 		Det d = std::move(det[h]); det.erase(h);
 		if (!Cfg::ok(*d.row, d.serial)) c.fail("C19 %s/%s contents: detached row serial %llu was overwritten before its destruction; ops: %s", suite, Cfg::name(), (unsigned long long)d.serial, trace.c_str());
 		inUse.erase(d.addr); ++pushGen[d.addr];
@@ -294,6 +361,7 @@ struct SeqCase {
 	}
 	// ---- ~DataRow split by hand on virtual thread det[h].holder (>= 1): the statements of DataRow.h:88-101 one at a time
 	void opDBegin(unsigned h) {
+		crashNext("dbegin");
 		Det d = std::move(det[h]); det.erase(h);
 		if (!Cfg::ok(*d.row, d.serial)) c.fail("C19 %s/%s contents: detached row serial %llu was overwritten before its destruction; ops: %s", suite, Cfg::name(), (unsigned long long)d.serial, trace.c_str());
 		d.row->mColumnList->DestroyRaw(nullptr, d.row->mRaw);
@@ -302,16 +370,19 @@ struct SeqCase {
 		say(fmt("dbegin %u", h), "ok"); state();
 	}
 	void opDLoad(unsigned thr) {
+		crashNext("dload");
 		InProg& p = prog[thr];
 		p.head = p.row->mFreeRaws->load(); p.stage = 1; p.genAtLoad = p.head ? pushGen[p.head] : 0;
 		say(fmt("dload %u", p.handle), "ok"); state();
 	}
 	void opDWrite(unsigned thr) {
+		crashNext("dwrite");
 		InProg& p = prog[thr];
 		std::memcpy(p.row->mRaw, &p.head, sizeof(void*)); p.stage = 2;
 		say(fmt("dwrite %u", p.handle), "ok"); state();
 	}
 	bool opDCas(unsigned thr) {
+		crashNext("dcas");
 		InProg& p = prog[thr];
 		void* expected = p.head;
 		bool okc = p.row->mFreeRaws->compare_exchange_strong(expected, static_cast<void*>(p.row->mRaw));
@@ -331,6 +402,7 @@ struct SeqCase {
 	}
 	// ---- finish: complete every destructor, destroy every detached row, take all, compare, destroy the table
 	void finish() {
+		crashNext("finish: complete destructors, destroy detached rows, take-all, destroy table");
 		while (!prog.empty()) stepProg(prog.begin()->first);
 		while (!det.empty()) opDispose(det.begin()->first);
 		opTakeAll();
@@ -340,6 +412,7 @@ struct SeqCase {
 		t.reset();
 		checkLedger(c, led, suite, trace);
 		checkItems(c, firstSerial, serial, suite, trace);
+		g_serial = serial;
 		if (takeNonEmpty && reused) c.stats.nontrivial(std::string(suite) + ":" + Cfg::name() + ":" + std::to_string(std::hash<std::string>()(trace)));
 		c.stats.sample(std::string(suite) + "/" + Cfg::name() + ": " + trace.substr(0, 600), 6);
 	}
@@ -348,12 +421,10 @@ struct SeqCase {
 template<typename Cfg>
 static void runSeq(Ctx& c, Rng& rng, Suite& s, unsigned cases, unsigned opsPerCase)
 {
-	uint64_t serialCounter = 1;
-	for (unsigned k = 0; k < cases; ++k) {
-		if (serialCounter + 4096 >= maxSerial) { serialCounter = 1; }
+	for (unsigned k = 0; k < cases && g_serial + 4096 < maxSerial; ++k) {
 		g_cnt.reset();
 		unsigned threads = 1 + (unsigned)rng.range(1, 3);
-		SeqCase<Cfg> q(c, s, threads, serialCounter, "seq");
+		SeqCase<Cfg> q(c, s, threads, "seq");
 		unsigned stallBias = (unsigned)rng.below(4);	// how eager stalled destructors are to continue
 		for (unsigned n = 0; n < opsPerCase; ++n) {
 			// enabled choices
@@ -366,8 +437,14 @@ static void runSeq(Ctx& c, Rng& rng, Suite& s, unsigned cases, unsigned opsPerCa
 			else if (pick < 34 && !ownerDet.empty()) q.opAdd(ownerDet[rng.below(ownerDet.size())]);
 			else if (pick < 44 && rows > 0) q.opExtract(rng.below(rows), rng.chance(1, 2));
 			else if (pick < 48 && rows > 0) q.opRemove(rng.below(rows), rng.chance(1, 2));
-			else if (pick < 58 && !anyDet.empty()) q.opMove(anyDet[rng.below(anyDet.size())], (unsigned)rng.below(threads));
-			else if (pick < 68 && !anyDet.empty()) q.opDispose(anyDet[rng.below(anyDet.size())]);
+			else if (pick < 56 && !anyDet.empty()) q.opMove(anyDet[rng.below(anyDet.size())], (unsigned)rng.below(threads));
+			else if (pick < 57 && !ownerDet.empty() && q.det.size() + q.prog.size() + rows < 40) q.opMoveAssign(ownerDet[rng.below(ownerDet.size())]);
+			else if (pick < 58 && anyDet.size() >= 2) { unsigned a = anyDet[rng.below(anyDet.size())], b = anyDet[rng.below(anyDet.size())]; if (a != b) q.opSwap(a, b); else q.opTableMove(); }
+			else if (pick < 68 && !anyDet.empty()) {
+				std::vector<unsigned> cand;
+				for (auto& kv : q.det) if (!q.prog.count(kv.second.holder)) cand.push_back(kv.first);
+				if (!cand.empty()) q.opDispose(cand[rng.below(cand.size())]);
+			}
 			else if (pick < 78 && !anyDet.empty()) {
 				// start a split destructor on a free virtual thread that holds a row
 				std::vector<unsigned> cand;
@@ -381,7 +458,6 @@ static void runSeq(Ctx& c, Rng& rng, Suite& s, unsigned cases, unsigned opsPerCa
 			else if (q.det.size() + q.prog.size() + rows < 40) q.opNew();
 		}
 		q.finish();
-		serialCounter = q.serial;
 		c.stats.count("seq.cases");
 		if (q.aba) c.stats.count("seq.cases_with_ABA");
 	}
@@ -390,23 +466,28 @@ static void runSeq(Ctx& c, Rng& rng, Suite& s, unsigned cases, unsigned opsPerCa
 // all interleavings of: virtual thread 1 destroying row A, virtual thread 2 destroying row B (4 steps each, more after a
 // failed CAS), owner program P (a list of owner steps). DFS over schedules, every complete schedule replayed from scratch.
 template<typename Cfg>
-static void runInterleavings(Ctx& c, Suite& s, const std::vector<std::string>& ownerProg, unsigned extraRows, uint64_t& schedules)
+static void runInterleavings(Ctx& c, Suite& s, const std::vector<std::string>& ownerProg, unsigned extraRows, uint64_t& schedules,
+	unsigned rowsA = 1, unsigned rowsB = 1)
 {
-	// a schedule is a string over {1,2,o}; enumerate by DFS with replay (cases are tiny)
+	// a schedule is a string over {1,2,o}; DFS: every stack entry is a prefix, replayed from scratch and completed by
+	// always taking the first enabled choice, the other enabled choices at every depth below the prefix are pushed
 	std::vector<std::string> stack{ "" };
-	uint64_t serialCounter = 1;
-	while (!stack.empty()) {
+	while (!stack.empty() && g_serial + 64 < maxSerial) {
 		std::string prefix = stack.back(); stack.pop_back();
-		g_cnt.reset(); serialCounter = 1;
-		SeqCase<Cfg> q(c, s, 3, serialCounter, "ilv");
-		// setup: rows A (thread 1), B (thread 2), plus extraRows rows in the table
-		unsigned hA = q.opNew(), hB = q.opNew();
-		for (unsigned i = 0; i < extraRows; ++i) q.opAdd(q.opNew());
-		q.opMove(hA, 1); q.opMove(hB, 2);
-		bool started[3] = { false, false, false }; bool done[3] = { false, false, false }; size_t ownerPc = 0; unsigned lastNew = 0;
+		g_cnt.reset();
+		SeqCase<Cfg> q(c, s, 3, "ilv");
+		// setup: rowsA rows for virtual thread 1, rowsB rows for virtual thread 2 (destroyed one after the other), plus
+		// extraRows rows in the table
+		std::vector<unsigned> todo[3];
+		for (unsigned i = 0; i < rowsA; ++i) todo[1].push_back(q.opNew());
+		for (unsigned i = 0; i < rowsB; ++i) todo[2].push_back(q.opNew());
+		for (unsigned i = 0; i < extraRows; ++i) { unsigned h = q.opNew(); q.opAdd(h); }
+		for (int th = 1; th <= 2; ++th) for (unsigned h : todo[th]) q.opMove(h, (unsigned)th);
+		size_t nextRow[3] = { 0, 0, 0 }; bool busy[3] = { false, false, false }; size_t ownerPc = 0; unsigned lastNew = 0;
 		auto enabled = [&](char who) {
 			if (who == 'o') return ownerPc < ownerProg.size();
-			int th = who - '0'; return !done[th];
+			int th = who - '0';
+			return busy[th] || nextRow[th] < todo[th].size();
 		};
 		auto fire = [&](char who) {
 			if (who == 'o') {
@@ -420,30 +501,26 @@ static void runInterleavings(Ctx& c, Suite& s, const std::vector<std::string>& o
 				return;
 			}
 			int th = who - '0';
-			if (!started[th]) { q.opDBegin(th == 1 ? hA : hB); started[th] = true; return; }
+			if (!busy[th]) { q.opDBegin(todo[th][nextRow[th]++]); busy[th] = true; return; }
 			bool wasCas = q.prog[th].stage == 2;
 			q.stepProg(th);
-			if (wasCas && !q.prog.count(th)) done[th] = true;
+			if (wasCas && !q.prog.count(th)) busy[th] = false;
 		};
 		for (char who : prefix) fire(who);
-		// extend
-		bool any = false;
-		for (char who : { 'o', '2', '1' }) if (enabled(who)) { any = true; }
-		if (any) {
-			// run the first enabled choice to completion in this replay, push the alternatives
-			std::string cur = prefix;
-			while (true) {
-				std::vector<char> en; for (char who : { '1', '2', 'o' }) if (enabled(who)) en.push_back(who);
-				if (en.empty()) break;
-				for (size_t i = 1; i < en.size(); ++i) stack.push_back(cur + en[i]);
-				fire(en[0]); cur += en[0];
-			}
-			++schedules;
-			c.stats.count("ilv.schedules");
-			if (q.aba) c.stats.count("ilv.schedules_with_ABA");
-			if (q.casFailed) c.stats.count("ilv.schedules_with_failed_CAS");
-			c.stats.nontrivial("ilv:" + std::string(Cfg::name()) + ":" + cur + ":" + std::to_string(ownerProg.size()) + ownerProg.back());
+		std::string cur = prefix;
+		while (true) {
+			std::vector<char> en;
+			for (char who : { '1', '2', 'o' }) if (enabled(who)) en.push_back(who);
+			if (en.empty()) break;
+			for (size_t i = 1; i < en.size(); ++i) stack.push_back(cur + en[i]);
+			fire(en[0]); cur += en[0];
 		}
+		++schedules;
+		c.stats.count("ilv.schedules");
+		{ std::string pn = fmt("%ux%u,", rowsA, rowsB); for (auto& o : ownerProg) { pn += o; pn += ','; } c.stats.count("ilv.schedules[" + pn + Cfg::name() + "]"); }
+		if (q.aba) c.stats.count("ilv.schedules_with_ABA");
+		if (q.casFailed) c.stats.count("ilv.schedules_with_failed_CAS");
+		c.stats.nontrivial(fmt("ilv:%s:%ux%u:", Cfg::name(), rowsA, rowsB) + cur + ":" + std::to_string(ownerProg.size()) + (ownerProg.empty() ? std::string() : ownerProg.back()));
 		q.finish();
 	}
 }
@@ -501,23 +578,25 @@ static void runPar(Ctx& c, Rng& rng, Suite* sp, unsigned cases, unsigned opsPerC
 	typedef typename Cfg::Table Table; typedef typename Cfg::Row Row;
 	for (unsigned k = 0; k < cases; ++k) {
 		g_cnt.reset();
-		for (size_t i = 0; i < 8192; ++i) g_shared.began[i].store(0);
+		if (g_serial + opsPerCase + 8 >= maxSerial) break;
 		Ledger led; BlockIds ids; Usage use; std::string trace;
-		uint64_t serial = 1; unsigned nextHandle = 1;
+		crashBegin((std::string("par/") + Cfg::name() + " (owner history; disposer threads destroy the rows given to them)").c_str());
+		uint64_t firstSerial = g_serial, serial = g_serial; unsigned nextHandle = 1;
 		unsigned K = (unsigned)rng.range(1, maxThreads);
 		std::unique_ptr<Table> t(new Table(Cfg::make(&led)));
 		std::vector<std::unique_ptr<WorkQueue<Row>>> wq; std::vector<std::thread> thr;
 		for (unsigned i = 0; i < K; ++i) { wq.emplace_back(new WorkQueue<Row>()); thr.emplace_back(disposerThread<Cfg>, wq.back().get(), c.seed * 7919 + k * 31 + i, false); }
 		struct Held { std::unique_ptr<Row> row; uint64_t serial; const void* addr; };
 		std::map<unsigned, Held> held;
-		auto say = [&](const std::string& op, const std::string& res) { if (sp) { sp->op(op); sp->res(res); } trace += op; trace += "; "; c.stats.evaluations++; };
+		auto say = [&](const std::string& op, const std::string& res) { crashOp(op); if (sp) { sp->op(op); sp->res(res); } trace += op; trace += "; "; c.stats.evaluations++; };
 		auto rowsLine = [&] { if (sp) { sp->op("rows"); sp->res("rows=" + fmtIds(rowIds(*t, ids))); } };
 		if (sp) { sp->op(fmt("reset %u", K + 1)); sp->res("ok"); }
 		uint64_t given = 0, reusedGiven = 0;
-		for (unsigned n = 0; n < opsPerCase && serial + 8 < 8192; ++n) {
+		for (unsigned n = 0; n < opsPerCase; ++n) {
 			unsigned pick = (unsigned)rng.below(100);
 			size_t rows = t->GetCount();
 			if (pick < 35 || (held.empty() && rows == 0)) {
+				crashNext("pnew");
 				Row r = t->NewRow();
 				const void* a = r.GetRaw();
 				bool seen = ids.known(a); unsigned blk = ids.get(a);
@@ -540,11 +619,13 @@ static void runPar(Ctx& c, Rng& rng, Suite* sp, unsigned cases, unsigned opsPerC
 			} else if (pick < 55 && !held.empty()) {
 				auto it = held.begin(); std::advance(it, rng.below(held.size()));
 				use.m[it->second.addr] = Usage::Info{ Usage::table, it->second.serial };
+				crashNext("add");
 				t->Add(std::move(*it->second.row));
 				say(fmt("add %u", it->first), "ok"); rowsLine();
 				held.erase(it);
 			} else if (pick < 70 && rows > 0) {
 				size_t i = rng.below(rows); bool keep = rng.chance(1, 2);
+				crashNext("extract");
 				Row r = t->Extract(i, keep);
 				const void* a = r.GetRaw(); uint64_t ser = Cfg::idOf(r);
 				if (!Cfg::ok(r, ser)) c.fail("C19 par/%s contents: extracted row %zu (serial %llu) was overwritten; owner history: %s", Cfg::name(), i, (unsigned long long)ser, trace.c_str());
@@ -573,6 +654,7 @@ static void runPar(Ctx& c, Rng& rng, Suite* sp, unsigned cases, unsigned opsPerC
 				held.erase(it);	// ~DataRow on the owner thread
 			}
 		}
+		crashNext("join, take-all, destroy remaining rows and the table");
 		for (auto& w : wq) w->close();
 		for (auto& th : thr) th.join();
 		say("join", "ok");
@@ -594,7 +676,8 @@ static void runPar(Ctx& c, Rng& rng, Suite* sp, unsigned cases, unsigned opsPerC
 		held.clear();	// remaining detached rows die on the owner thread, before the table
 		t.reset();
 		checkLedger(c, led, "par", trace);
-		checkItems(c, 1, serial, "par", trace);
+		checkItems(c, firstSerial, serial, "par", trace);
+		g_serial = serial;
 		c.stats.count("par.cases"); c.stats.count("par.rows_destroyed_on_other_threads", given);
 		c.stats.count(fmt("par.threads_%u", K));
 		if (given >= 3 && reusedGiven >= 1) c.stats.nontrivial(fmt("par:%s:%u:%llu", Cfg::name(), k, (unsigned long long)std::hash<std::string>()(trace)));
@@ -610,18 +693,19 @@ static void runStorm(Ctx& c, Rng& rng, unsigned threads, unsigned rowsPerThread,
 	typedef typename Cfg::Table Table; typedef typename Cfg::Row Row;
 	g_cnt.reset();
 	size_t total = size_t(threads) * rowsPerThread;
-	for (size_t i = 0; i < total + ownerOps + 16 && i < maxSerial; ++i) g_shared.began[i].store(0);
-	Ledger led; Usage use; uint64_t serial = 1;
+	if (g_serial + 2 * total + ownerOps + 16 >= maxSerial) return;
+	Ledger led; Usage use; uint64_t firstSerial = g_serial, serial = g_serial;
 	std::string what = fmt("storm %s threads=%u rows/thread=%u ownerOps=%u seed=%llu", Cfg::name(), threads, rowsPerThread, ownerOps, (unsigned long long)c.seed);
+	crashBegin(what.c_str());
 	std::unique_ptr<Table> t(new Table(Cfg::make(&led)));
 	std::vector<std::unique_ptr<WorkQueue<Row>>> wq;
 	g_shared.gate.store(0);
 	for (unsigned i = 0; i < threads; ++i) {
 		wq.emplace_back(new WorkQueue<Row>());
 		for (unsigned j = 0; j < rowsPerThread; ++j) {
-			Row r = (j % 3 == 2 && t->GetCount() > 0) ? t->Extract(t->GetCount() - 1) : t->NewRow();
-			if (j % 3 == 2 && Cfg::idOf(r) != 0) { /* extracted row keeps its serial */ }
-			else { Cfg::fill(r, serial); ++serial; }
+			bool ext = (j % 3 == 2 && t->GetCount() > 0);	// rows returned by Extract are detached rows as well
+			Row r = ext ? t->Extract(t->GetCount() - 1) : t->NewRow();
+			if (!ext) { Cfg::fill(r, serial); ++serial; }
 			uint64_t ser = Cfg::idOf(r);
 			use.m[r.GetRaw()] = Usage::Info{ Usage::given, ser };
 			wq.back()->push(typename WorkQueue<Row>::Item{ std::unique_ptr<Row>(new Row(std::move(r))), ser });
@@ -673,7 +757,8 @@ static void runStorm(Ctx& c, Rng& rng, unsigned threads, unsigned rowsPerThread,
 	held.clear();
 	t.reset();
 	checkLedger(c, led, "storm", what);
-	checkItems(c, 1, serial, "storm", what);
+	checkItems(c, firstSerial, serial, "storm", what);
+	g_serial = serial;
 	c.stats.evaluations++;
 	c.stats.count("storm.rounds"); c.stats.count("storm.rows_destroyed_on_other_threads", total);
 	c.stats.count("storm.blocks_reused_by_owner_while_threads_ran", reusedGiven);
@@ -683,51 +768,85 @@ static void runStorm(Ctx& c, Rng& rng, unsigned threads, unsigned rowsPerThread,
 
 // ------------------------------------------------------------------ main
 
+// which table configuration this executable covers (the two are compiled as separate executables to halve compile time)
+#if defined(C19_ONLY_DYN)
+# define IF_DYN(x) x
+# define IF_STAT(x)
+#elif defined(C19_ONLY_STAT)
+# define IF_DYN(x)
+# define IF_STAT(x) x
+#else
+# define IF_DYN(x) x
+# define IF_STAT(x) x
+#endif
+
 int main(int argc, char** argv)
 {
 	Ctx c = parseArgs(argc, argv);
-	Rng rng(c.seed * 0x1000 + 19);
+	g_ctx = &c;
+	g_crashFd = open((c.outDir + "/fail.txt").c_str(), O_CREAT | O_TRUNC | O_WRONLY, 0644);
 #ifdef C19_TSAN_BUILD
 	const bool tsan = true;
 #else
 	const bool tsan = false;
 #endif
+#ifdef C19_ONLY_STAT
+	const unsigned variant = tsan ? 3 : 2;
+#else
+	const unsigned variant = tsan ? 1 : 0;
+#endif
+	Rng rng(c.seed * 0x1000 + 19 + 0x100 * variant);	// the four executables explore different schedules
 	{
 		Suite s(c, "seq", "model rows");
-		unsigned cases = c.thorough ? (tsan ? 300 : 1200) : (tsan ? 40 : 160);
-		runSeq<DynCfg>(c, rng, s, cases, 70);
-		runSeq<StatCfg>(c, rng, s, cases / 2, 70);
+		unsigned cases = c.thorough ? (tsan ? 2500 : 10000) : (tsan ? 300 : 1000);
+		IF_DYN(runSeq<DynCfg>(c, rng, s, cases, 70);)
+		IF_STAT(runSeq<StatCfg>(c, rng, s, cases, 70);)
 	}
 	{
 		Suite s(c, "ilv", "model rows");
 		uint64_t schedules = 0;
-		std::vector<std::vector<std::string>> progs = { { "takeall", "new" }, { "new", "takeall" }, { "takeall", "new", "dispose" } };
-		if (c.thorough) { progs.push_back({ "new", "add", "takeall", "extract" }); progs.push_back({ "takeall", "new", "takeall", "new" }); }
-		if (tsan && !c.thorough) progs.resize(1);
-		for (auto& p : progs) { runInterleavings<DynCfg>(c, s, p, 1, schedules); }
-		if (!tsan) runInterleavings<StatCfg>(c, s, progs[0], 0, schedules);
+		typedef std::vector<std::string> P;
+		std::vector<P> small = { P{ "takeall" }, P{ "new" } };
+		std::vector<P> two = { P{ "takeall", "new" }, P{ "new", "takeall" } };
+		std::vector<P> three = { P{ "takeall", "new", "dispose" } };	// long enough for ABA: take, reuse, push again
+		for (auto& p : small) { IF_DYN(runInterleavings<DynCfg>(c, s, p, 1, schedules);) IF_STAT(runInterleavings<StatCfg>(c, s, p, 0, schedules);) }
+		if (!tsan || c.thorough)
+			for (auto& p : two) { IF_DYN(runInterleavings<DynCfg>(c, s, p, 1, schedules);) IF_STAT(runInterleavings<StatCfg>(c, s, p, 0, schedules);) }
+		if (!tsan && c.thorough && c.seed < 1000000) {
+			// the large exhaustive configurations do not depend on the seed: run once (the thorough tier's second seed is >= 10^6)
+			IF_DYN(runInterleavings<DynCfg>(c, s, three[0], 0, schedules);)		// ~146k schedules, includes ABA
+			IF_DYN(runInterleavings<DynCfg>(c, s, P{}, 0, schedules, 2, 1);)
+			IF_STAT(runInterleavings<StatCfg>(c, s, P{}, 0, schedules, 2, 2);)		// ~228k schedules
+			IF_STAT(runInterleavings<StatCfg>(c, s, P{}, 0, schedules, 2, 1);)
+		} else if (!tsan) {
+			// more rows per thread (destroyed one after the other by the same thread)
+			IF_DYN(runInterleavings<DynCfg>(c, s, P{}, 0, schedules, 2, 1);)
+			IF_STAT(runInterleavings<StatCfg>(c, s, P{}, 0, schedules, 2, 1);)
+		}
 	}
 	{
 		Suite s(c, "par", "model rows");
-		unsigned cases = c.thorough ? 400 : (tsan ? 30 : 60);
-		runPar<DynCfg>(c, rng, &s, cases, 120, c.thorough ? 6 : 3);
-		runPar<StatCfg>(c, rng, &s, cases / 2, 120, 3);
+		unsigned cases = c.thorough ? (tsan ? 1500 : 3000) : (tsan ? 150 : 300);
+		IF_DYN(runPar<DynCfg>(c, rng, &s, cases, 120, c.thorough ? 6 : 3);)
+		IF_STAT(runPar<StatCfg>(c, rng, &s, cases, 120, c.thorough ? 6 : 3);)
 	}
 	{
 		// the configurations the property names: k disposer threads x up to 3 rows each, exhaustively over (threads, rows) in 1..3,
 		// then arbitrary counts
-		unsigned reps = c.thorough ? 60 : 8;
+		unsigned reps = c.thorough ? 600 : 50;
 		for (unsigned rep = 0; rep < reps; ++rep)
 			for (unsigned th = 1; th <= 3; ++th)
 				for (unsigned rows = 1; rows <= 3; ++rows) {
-					runStorm<DynCfg>(c, rng, th, rows, 12);
-					if (rep % 2 == 0) runStorm<StatCfg>(c, rng, th, rows, 12);
+					IF_DYN(runStorm<DynCfg>(c, rng, th, rows, 12);)
+					IF_STAT(runStorm<StatCfg>(c, rng, th, rows, 12);)
 				}
-		unsigned big = c.thorough ? 120 : 14;
+		unsigned big = c.thorough ? 800 : 60;
 		for (unsigned rep = 0; rep < big; ++rep) {
-			unsigned th = (unsigned)rng.range(2, c.thorough ? 12 : 8), rows = (unsigned)rng.range(4, c.thorough ? 400 : 120);
-			if (rep % 3 == 2) runStorm<StatCfg>(c, rng, th, rows, rows * 2); else runStorm<DynCfg>(c, rng, th, rows, rows * 2);
+			unsigned th = (unsigned)rng.range(2, c.thorough ? 12 : 8), rows = (unsigned)rng.range(4, c.thorough ? 300 : 120);
+			IF_DYN(runStorm<DynCfg>(c, rng, th, rows, rows * 2);)
+			IF_STAT(runStorm<StatCfg>(c, rng, th, rows, rows * 2);)
 		}
 	}
+	if (g_crashFd >= 0) { close(g_crashFd); g_crashFd = -1; if (!c.failures) unlink((c.outDir + "/fail.txt").c_str()); }
 	return c.finish();
 }
